@@ -69,6 +69,10 @@ pub struct Model {
     pub readset_change_epoch: BTreeMap<u32, u64>,
     /// history of values per input (for the "reverted" label)
     pub input_history: BTreeMap<u32, Vec<Val>>,
+    /// nodes whose executor completed under a request that was then cut
+    /// short (cancelled / unwound): the engine may or may not have published
+    /// them. Only used to decide when the KF1 precondition may hold.
+    pub publish_uncertain: BTreeSet<u32>,
 }
 
 impl Model {
@@ -252,6 +256,9 @@ impl<B: Backend> Runner<B> {
             }
             match self.model.last_exec_epoch.get(r) {
                 None => natural = false,
+                Some(_) if self.model.publish_uncertain.contains(r) => {
+                    natural = false;
+                }
                 Some(&e_r) => {
                     for m in self.prev_closure(&[*r]) {
                         if self
@@ -272,6 +279,9 @@ impl<B: Backend> Runner<B> {
             }
             match self.model.last_completed.get(x) {
                 None => natural = false,
+                Some(_) if self.model.publish_uncertain.contains(x) => {
+                    natural = false;
+                }
                 Some(prev) => {
                     let old: BTreeSet<u32> = prev.iter().map(|c| c.0).collect();
                     if reads_now
@@ -282,6 +292,9 @@ impl<B: Backend> Runner<B> {
                     }
                 }
             }
+        }
+        if std::env::var_os("VERIF_TRACE_KF1").is_some() {
+            eprintln!("   kf1: roots={roots:?} natural={natural} now_all={now_all:?} leaf_changed={:?} last_exec={:?}", self.model.leaf_changed_epoch, self.model.last_exec_epoch);
         }
         if natural {
             return Vec::new();
@@ -323,6 +336,9 @@ impl<B: Backend> Runner<B> {
             return;
         }
         self.kf1_defused_steps += 1;
+        if std::env::var_os("VERIF_TRACE").is_some() {
+            eprintln!("   defuse roots={roots:?} targets={targets:?}");
+        }
         let p = self.prog.clone();
         for y in targets {
             let te = self.tracked().await;
@@ -345,6 +361,12 @@ impl<B: Backend> Runner<B> {
         let p = &self.prog;
         let leaves = |n: u32| m.leaf(p, n);
         Oracle::new(p, &leaves).node(node)
+    }
+
+    /// does the from-scratch evaluation of `from` evaluate `target`?
+    #[must_use]
+    pub fn reaches(&self, from: u32, target: u32) -> bool {
+        self.closure(from).0.contains(&target)
     }
 
     /// transitive read closure of `node` under the reference evaluation
@@ -409,9 +431,15 @@ impl<B: Backend> Runner<B> {
         self.tracked = None;
         self.out.sessions += 1;
         let engine = self.engine.as_ref().unwrap().clone();
+        let mut s = engine.input_session().await;
+        // The exclusive phase lock is held now, so every TrackedEngine clone
+        // (tasks spawned by executors of an earlier, possibly cancelled query
+        // included) is gone. What those stragglers executed while this call
+        // was waiting belongs to the previous epoch: judge it against the
+        // model as it was.
+        self.process_log(StepCtx::Query);
         self.model.epoch += 1;
         self.sh.epoch.store(self.model.epoch, Ordering::SeqCst);
-        let mut s = engine.input_session().await;
         let mut any_change = false;
         let mut has_refresh = false;
         for op in ops {
@@ -631,6 +659,15 @@ impl<B: Backend> Runner<B> {
         self.process_log(StepCtx::Query);
     }
 
+    #[must_use]
+    pub fn log_pos(&self) -> usize { self.log_pos }
+
+    /// A fault-free query that is not a step of the generated history.
+    pub async fn step_quiet_query(&mut self, node: u32) {
+        self.query(node).await;
+        self.tracked = None;
+    }
+
     async fn query_many(&mut self, nodes: &[u32], separate: bool) {
         self.out.queries += nodes.len();
         self.out.labels.insert("query_many");
@@ -848,6 +885,7 @@ impl<B: Backend> Runner<B> {
         self.log_pos = log.len();
         drop(log);
         for (node, reads, _epoch) in updates {
+            self.model.publish_uncertain.remove(&node);
             let e = self.model.epoch;
             let c = self.model.completed_in_epoch.entry((node, e)).or_insert(0);
             *c += 1;
